@@ -533,6 +533,14 @@ func checkInterest(val *Interest, context *InterestParsingContext) error {
 	if val.SignatureValue != nil && val.ApplicationParameters == nil {
 		return enc.ErrIncorrectDigest
 	}
+	if val.ApplicationParameters == nil {
+		// A parameters digest that nothing can be checked against: the ApplicationParameters
+		// element is missing (or its type was corrupted into an ignorable one).
+		name := val.NameV
+		if len(name) > 0 && name[len(name)-1].Typ == enc.TypeParametersSha256DigestComponent {
+			return enc.ErrIncorrectDigest
+		}
+	}
 	if val.ApplicationParameters != nil {
 		// Check digest
 		name := val.NameV
